@@ -19,6 +19,11 @@ Vers0 == Vers \cup {0}
 \* ApprovedUpgradeVersion of version v in the fixture's table when the node approves upgrades
 Approved(v) == IF v = 1 THEN 2 ELSE IF v = 2 THEN 9 ELSE 0
 
+\* the upgrade parameters are those of the ACTIVE version (prevProto = params.Versions[prev.CurrVersion] in both Go
+\* functions).  A parameter set is either one record [vr, th, minw, maxw] for every version, or [p1, p2, p9] with one record
+\* per version of the fixture.
+PV(PP, cv) == IF "p1" \in DOMAIN PP THEN (CASE cv = 1 -> PP.p1 [] cv = 2 -> PP.p2 [] OTHER -> PP.p9) ELSE PP
+
 Hdr(n, cv, nv, ap, vb, so) == [n |-> n, cv |-> cv, nv |-> nv, ap |-> ap, vb |-> vb, so |-> so]
 Genesis == Hdr(0, 1, 0, 0, 0, 0)
 NoHdr   == Hdr(0, 0, 0, 0, 0, 0)   \* "the builder returned an error" (cv = 0 is not a version)
